@@ -22,8 +22,9 @@ theorem w1_genesis : Genesis w1Genesis := by
   refine ⟨rfl, rfl, rfl, rfl, rfl, ?_, ?_⟩ <;> intro d <;>
     simp [w1Genesis, Bank.balOf, AMap.getD, AMap.get?, farmAcc, collectorAcc]
 
-/-- the F-farm-2 history: btc/eth 5 each at 1/block from height 10; the creator tops up 10 btc
-in the end block (height 15); the chain runs on to the new end height 25 -/
+/-- the history of the fixed finding F-farm-2 (commit 966aea0): btc/eth 5 each at 1/block from
+height 10; the creator tops up 10 btc in the end block (height 15); the chain runs on past
+height 25.  With the fix the pool ends at 15 and everything is refunded. -/
 def w2Genesis : State :=
   { height := 10,
     bank := { bal := [(("A0", "btc"), 1000), (("A0", "eth"), 1000), (("A0", "stake"), 10000), (("A1", "lpt-1"), 10)] } }
